@@ -11,6 +11,9 @@ None2 == [ex |-> FALSE, bal |-> 0, nonce |-> 0, code |-> 0, stor |-> Z2, size |-
 \* ---- journal level (level a): a1 = contract with one committed slot, a2 = plain account, a3 = absent
 GenJ1 == <<Acc(2, 1, 1, <<1>>, 1), Acc(1, 0, 0, Z1, 0), None1>>
 GenJ2 == <<Acc(2, 1, 1, <<1, 0>>, 1), Acc(1, 0, 0, Z2, 0), None2>>
+\* two accounts only (deeper exhaustive runs): a1 = contract with one committed slot, a2 = absent
+GenK == <<Acc(2, 1, 1, <<1>>, 1), None1>>
+NoLock2 == <<FALSE, FALSE>>
 NoLock3 == <<FALSE, FALSE, FALSE>>
 OpsJ == {"addbalance", "subbalance", "setbalance", "setnonce", "setcode", "setstate", "settransient", "suicide",
          "createaccount", "addlog", "addrefund", "subrefund", "addpreimage", "aladdr", "alslot",
@@ -31,4 +34,13 @@ OpsE == {"push", "popok", "popsuicide", "popabort", "sstore", "tstore", "log", "
 FrE == <<1, 2, 3, 4, 5>>
 NewE == <<8, 9, 10>>
 XferE == {6, 7}
+
+\* ---- long EVM-level behaviours (TLC simulation): K1..K8, E = 9, N = 10, C1..C4 = 11..14
+GenEL == <<Acc(3, 1, 1, Z1, 0), Acc(1, 1, 1, <<1>>, 1), Acc(1, 1, 1, Z1, 0), Acc(0, 1, 1, Z1, 0), Acc(1, 1, 1, Z1, 0),
+           Acc(2, 1, 1, <<2>>, 1), Acc(1, 1, 1, Z1, 0), Acc(1, 1, 1, Z1, 0),
+           Acc(1, 0, 0, Z1, 0), None1, None1, None1, None1, None1>>
+LockEL == <<TRUE, TRUE, TRUE, TRUE, TRUE, TRUE, TRUE, TRUE, FALSE, FALSE, FALSE, FALSE, FALSE, FALSE>>
+FrEL == <<1, 2, 3, 4, 5, 6, 7, 8>>
+NewEL == <<11, 12, 13, 14>>
+XferEL == {9, 10}
 =============================================================================
